@@ -56,6 +56,17 @@ Proof.
   intros H1 H2. apply N.leb_le in H1. apply N.leb_le in H2. apply N.leb_le. lia.
 Qed.
 
+Lemma dmin_cases a b : (dmin a b = a /\ dle a b) \/ (dmin a b = b /\ dle b a).
+Proof.
+  destruct a as [x|], b as [y|]; unfold dle; cbn [dmin dleb].
+  - destruct (N.leb_spec x y) as [H|H].
+    + left. split; [f_equal; lia|reflexivity].
+    + right. split; [f_equal; lia|apply N.leb_le; lia].
+  - left. split; reflexivity.
+  - right. split; reflexivity.
+  - left. split; reflexivity.
+Qed.
+
 Lemma dmax_list_ge l x : In x l -> dle x (dmax_list l).
 Proof.
   induction l as [|y l IH]; cbn [In dmax_list fold_right]; intros H; [contradiction|].
@@ -76,7 +87,8 @@ Lemma dle_inf_eq a : dle Inf a -> a = Inf.
 Proof. destruct a; unfold dle; cbn [dleb]; auto; discriminate. Qed.
 
 (* ---- what one leaf's Shutdown computes, in closed form ---- *)
-Definition good_gp (gp : list step) : Prop := gp = grpc_prog \/ gp = grpc_prog_deadline.
+(* [grpc_prog] is the code as it is; [grpc_prog_unrepaired] the code before fix 72215e8 *)
+Definition good_gp (gp : list step) : Prop := gp = grpc_prog \/ gp = grpc_prog_unrepaired.
 
 Definition leaf_state (gp : list step) (wait : N) (l : leaf) : lstate :=
   exec wait (litems l) (lstuck l) (prog_of gp (lkind l)).
@@ -109,17 +121,17 @@ Qed.
 
 Lemma state_grpc wait l : lkind l = KGrpc ->
   leaf_state grpc_prog wait l =
-  {| now := dmax_list (litems l); closed_at := Some (Fin 0); cut_at := None |}.
+  {| now := idle_or wait l; closed_at := Some (Fin 0); cut_at := Some (idle_or wait l) |}.
 Proof.
   intros H. unfold leaf_state, exec, prog_of, grpc_prog. rewrite H.
   cbn [fold_left exec_step lstate0 now closed_at cut_at]. rewrite dmax_zero_l. reflexivity.
 Qed.
 
-Lemma state_grpc_deadline wait l : lkind l = KGrpc ->
-  leaf_state grpc_prog_deadline wait l =
-  {| now := idle_or wait l; closed_at := Some (Fin 0); cut_at := Some (idle_or wait l) |}.
+Lemma state_grpc_unrepaired wait l : lkind l = KGrpc ->
+  leaf_state grpc_prog_unrepaired wait l =
+  {| now := dmax_list (litems l); closed_at := Some (Fin 0); cut_at := None |}.
 Proof.
-  intros H. unfold leaf_state, exec, prog_of, grpc_prog_deadline. rewrite H.
+  intros H. unfold leaf_state, exec, prog_of, grpc_prog_unrepaired. rewrite H.
   cbn [fold_left exec_step lstate0 now closed_at cut_at]. rewrite dmax_zero_l. reflexivity.
 Qed.
 
@@ -131,12 +143,12 @@ Proof.
   - rewrite (state_tcp gp wait l K). reflexivity.
   - destruct Hg as [-> | ->].
     + rewrite (state_grpc wait l K). reflexivity.
-    + rewrite (state_grpc_deadline wait l K). reflexivity.
+    + rewrite (state_grpc_unrepaired wait l K). reflexivity.
 Qed.
 
 Lemma prog_closes_first gp k : good_gp gp -> exists rest, prog_of gp k = CloseListener :: rest.
 Proof.
-  intros [-> | ->]; destruct k; cbn [prog_of]; unfold http_prog, tcp_prog, grpc_prog, grpc_prog_deadline; eauto.
+  intros [-> | ->]; destruct k; cbn [prog_of]; unfold http_prog, tcp_prog, grpc_prog, grpc_prog_unrepaired; eauto.
 Qed.
 
 Lemma dltb_fin_zero t : dltb (Fin t) (Fin 0) = false.
@@ -230,9 +242,9 @@ Proof.
     assert (E : dleb (Fin n) (Fin wait) = true) by (apply dle_fin; exact Hn).
     rewrite E. split; [reflexivity|exact E].
   - destruct Hg as [-> | ->].
-    + rewrite (state_grpc wait l K). cbn [item_fate cut_at now]. split; [reflexivity|exact Hmax].
-    + rewrite (state_grpc_deadline wait l K). cbn [item_fate cut_at now].
+    + rewrite (state_grpc wait l K). cbn [item_fate cut_at now].
       pose proof Hidle as Hi2. unfold dle in Hi2. rewrite Hi2. split; [reflexivity|exact Hidle].
+    + rewrite (state_grpc_unrepaired wait l K). cbn [item_fate cut_at now]. split; [reflexivity|exact Hmax].
 Qed.
 
 Theorem inflight_within_wait_complete_gen gp wait srvs s l n : good_gp gp ->
@@ -251,21 +263,47 @@ Theorem inflight_within_wait_complete wait srvs s l n :
   survives (shutdown wait srvs) (Done n) = true.
 Proof. apply inflight_within_wait_complete_gen. left; reflexivity. Qed.
 
-(* nothing is ever cut before the deadline, and only TCP tunnels that outlive it are cut *)
+(* nothing is ever cut before the deadline; only TCP tunnels and gRPC streams that outlive it
+   are cut, at the deadline; HTTP requests are never cut *)
 Theorem cut_only_at_deadline wait l d c :
   In d (litems l) -> fate_of grpc_prog wait l d = Cut c ->
-  c = Fin wait /\ lkind l = KTcp /\ dltb (Fin wait) d = true.
+  c = Fin wait /\ (lkind l = KTcp \/ lkind l = KGrpc) /\ dltb (Fin wait) d = true.
 Proof.
-  intros _. unfold fate_of. destruct (lkind l) eqn:K.
+  intros Hin. unfold fate_of. destruct (lkind l) eqn:K.
   - rewrite (state_http grpc_prog wait l K). cbn [item_fate cut_at]. destruct d; discriminate.
   - rewrite (state_tcp grpc_prog wait l K). cbn [item_fate cut_at].
     destruct (dleb d (Fin wait)) eqn:E.
     + destruct d; discriminate.
     + intros H. inversion H. unfold dltb. rewrite E. auto.
-  - rewrite (state_grpc wait l K). cbn [item_fate cut_at]. destruct d; discriminate.
+  - rewrite (state_grpc wait l K). cbn [item_fate cut_at].
+    destruct (dleb d (idle_or wait l)) eqn:E.
+    + destruct d; discriminate.
+    + intros H. inversion H. subst c.
+      assert (Hmax : dle d (dmax_list (litems l))) by (apply dmax_list_ge; exact Hin).
+      unfold idle_or in *. destruct (dmin_cases (dmax_list (litems l)) (Fin wait)) as [[Em _]|[Em _]].
+      * rewrite Em in E. unfold dle in Hmax. congruence.
+      * rewrite Em in *. split; [reflexivity|]. split; [right; reflexivity|].
+        unfold dltb. rewrite E. reflexivity.
 Qed.
 
-(* ---- clause 3: boundedness ---- *)
+(* ---- clause 3: boundedness, for EVERY mix of servers and open work ---- *)
+Lemma leaf_ret_bounded wait l : dle (r_ret (run_leaf grpc_prog wait l)) (Fin wait).
+Proof.
+  rewrite run_leaf_ret. destruct (lkind l) eqn:K.
+  - rewrite (state_http grpc_prog wait l K). cbn [now]. apply idle_or_le_wait.
+  - rewrite (state_tcp grpc_prog wait l K). cbn [now]. apply dle_refl.
+  - rewrite (state_grpc wait l K). cbn [now]. apply idle_or_le_wait.
+Qed.
+
+Theorem bounded wait srvs : dle (g_ret (shutdown wait srvs)) (Fin wait).
+Proof. apply global_ret_lub. intros s l _ _. apply leaf_ret_bounded. Qed.
+
+Theorem bounded_http_tcp wait srvs :
+  (forall s l, In s srvs -> In l (leaves s) -> lkind l <> KGrpc) ->
+  dle (g_ret (shutdown wait srvs)) (Fin wait).
+Proof. intros _. apply bounded. Qed.
+
+(* ---- the code before fix 72215e8 (F-C18-1, repaired): GracefulStop without the deadline ---- *)
 Definition leaf_over (wait : N) (l : leaf) : bool :=
   kind_eqb (lkind l) KGrpc && existsb (fun d => dltb (Fin wait) d) (litems l).
 Definition over_wait (wait : N) (srvs : list server) : bool :=
@@ -274,13 +312,13 @@ Definition over_wait (wait : N) (srvs : list server) : bool :=
 Lemma kind_eqb_eq a b : kind_eqb a b = true <-> a = b.
 Proof. destruct a, b; cbn [kind_eqb]; split; intros H; auto; discriminate. Qed.
 
-Lemma leaf_ret_bounded wait l : leaf_over wait l = false ->
-  dle (r_ret (run_leaf grpc_prog wait l)) (Fin wait).
+Lemma unrepaired_leaf_ret_bounded wait l : leaf_over wait l = false ->
+  dle (r_ret (run_leaf grpc_prog_unrepaired wait l)) (Fin wait).
 Proof.
   intros H. rewrite run_leaf_ret. destruct (lkind l) eqn:K.
-  - rewrite (state_http grpc_prog wait l K). cbn [now]. apply idle_or_le_wait.
-  - rewrite (state_tcp grpc_prog wait l K). cbn [now]. apply dle_refl.
-  - rewrite (state_grpc wait l K). cbn [now]. unfold leaf_over in H. rewrite K in H.
+  - rewrite (state_http grpc_prog_unrepaired wait l K). cbn [now]. apply idle_or_le_wait.
+  - rewrite (state_tcp grpc_prog_unrepaired wait l K). cbn [now]. apply dle_refl.
+  - rewrite (state_grpc_unrepaired wait l K). cbn [now]. unfold leaf_over in H. rewrite K in H.
     cbn [kind_eqb andb] in H. apply dmax_list_lub. intros x Hx.
     destruct (dleb x (Fin wait)) eqn:E; [exact E|].
     exfalso. assert (existsb (fun d => dltb (Fin wait) d) (litems l) = true).
@@ -288,85 +326,63 @@ Proof.
     congruence.
 Qed.
 
-Theorem bounded_on_domain wait srvs :
-  over_wait wait srvs = false -> dle (g_ret (shutdown wait srvs)) (Fin wait).
+Theorem unrepaired_bounded_on_domain wait srvs :
+  over_wait wait srvs = false -> dle (g_ret (shutdown_unrepaired wait srvs)) (Fin wait).
 Proof.
-  intros H. apply global_ret_lub. intros s l Hs Hl. apply leaf_ret_bounded.
+  intros H. apply global_ret_lub. intros s l Hs Hl. apply unrepaired_leaf_ret_bounded.
   destruct (leaf_over wait l) eqn:E; auto.
   exfalso. assert (over_wait wait srvs = true).
   { apply existsb_exists. exists s. split; auto. apply existsb_exists. exists l. split; auto. }
   congruence.
 Qed.
 
-Theorem bounded_http_tcp wait srvs :
-  (forall s l, In s srvs -> In l (leaves s) -> lkind l <> KGrpc) ->
-  dle (g_ret (shutdown wait srvs)) (Fin wait).
-Proof.
-  intros H. apply bounded_on_domain. destruct (over_wait wait srvs) eqn:E; auto. exfalso.
-  apply existsb_exists in E. destruct E as [s [Hs E]]. apply existsb_exists in E.
-  destruct E as [l [Hl E]]. unfold leaf_over in E. apply andb_true_iff in E. destruct E as [E _].
-  apply kind_eqb_eq in E. exact (H s l Hs Hl E).
-Qed.
-
-(* the converse: a gRPC stream that outlives the wait makes Shutdown overrun it *)
-Theorem grpc_overrun wait srvs :
-  over_wait wait srvs = true -> dltb (Fin wait) (g_ret (shutdown wait srvs)) = true.
+(* a gRPC stream that outlived the wait made Shutdown overrun it *)
+Theorem unrepaired_grpc_overrun wait srvs :
+  over_wait wait srvs = true -> dltb (Fin wait) (g_ret (shutdown_unrepaired wait srvs)) = true.
 Proof.
   intros E. apply existsb_exists in E. destruct E as [s [Hs E]]. apply existsb_exists in E.
   destruct E as [l [Hl E]]. unfold leaf_over in E. apply andb_true_iff in E. destruct E as [K E].
   apply kind_eqb_eq in K. apply existsb_exists in E. destruct E as [d [Hd E]].
   apply dltb_spec. intros Hle. apply dltb_spec in E. apply E.
   eapply dle_trans; [|exact Hle].
-  eapply dle_trans; [|apply (leaf_ret_le_global grpc_prog wait srvs s l Hs Hl)].
-  rewrite run_leaf_ret, (state_grpc wait l K). cbn [now]. apply dmax_list_ge. exact Hd.
+  eapply dle_trans; [|apply (leaf_ret_le_global grpc_prog_unrepaired wait srvs s l Hs Hl)].
+  rewrite run_leaf_ret, (state_grpc_unrepaired wait l K). cbn [now]. apply dmax_list_ge. exact Hd.
 Qed.
 
-Theorem bounded_iff wait srvs :
-  dle (g_ret (shutdown wait srvs)) (Fin wait) <-> over_wait wait srvs = false.
+Theorem unrepaired_bounded_iff wait srvs :
+  dle (g_ret (shutdown_unrepaired wait srvs)) (Fin wait) <-> over_wait wait srvs = false.
 Proof.
   split.
   - intros H. destruct (over_wait wait srvs) eqn:E; auto.
-    apply grpc_overrun in E. apply dltb_spec in E. contradiction.
-  - apply bounded_on_domain.
+    apply unrepaired_grpc_overrun in E. apply dltb_spec in E. contradiction.
+  - apply unrepaired_bounded_on_domain.
 Qed.
 
-(* a never-ending gRPC stream: Shutdown never returns *)
+(* a never-ending gRPC stream: the unrepaired Shutdown never returned *)
 Theorem grpc_never_ending_hangs wait srvs s l :
   In s srvs -> In l (leaves s) -> lkind l = KGrpc -> In Inf (litems l) ->
-  g_ret (shutdown wait srvs) = Inf.
+  g_ret (shutdown_unrepaired wait srvs) = Inf.
 Proof.
   intros Hs Hl K Hd. apply dle_inf_eq.
-  eapply dle_trans; [|apply (leaf_ret_le_global grpc_prog wait srvs s l Hs Hl)].
-  rewrite run_leaf_ret, (state_grpc wait l K). cbn [now]. apply dmax_list_ge. exact Hd.
+  eapply dle_trans; [|apply (leaf_ret_le_global grpc_prog_unrepaired wait srvs s l Hs Hl)].
+  rewrite run_leaf_ret, (state_grpc_unrepaired wait l K). cbn [now]. apply dmax_list_ge. exact Hd.
 Qed.
 
 Theorem grpc_unbounded_refuted :
-  exists wait srvs, g_ret (shutdown wait srvs) = Inf /\ ~ dle (g_ret (shutdown wait srvs)) (Fin wait).
+  exists wait srvs, g_ret (shutdown_unrepaired wait srvs) = Inf /\
+                    ~ dle (g_ret (shutdown_unrepaired wait srvs)) (Fin wait).
 Proof.
   exists 300, [Single (mkleaf KGrpc [Fin 90; Inf])]. split.
   - vm_compute. reflexivity.
   - vm_compute. discriminate.
 Qed.
 
-(* with a gRPC Shutdown that honours the deadline: bounded for every mix, nothing else lost *)
-Theorem bounded_all_if_grpc_honours_deadline wait srvs :
-  dle (g_ret (shutdown_fixed wait srvs)) (Fin wait).
-Proof.
-  apply global_ret_lub. intros s l _ _. rewrite run_leaf_ret. destruct (lkind l) eqn:K.
-  - rewrite (state_http grpc_prog_deadline wait l K). cbn [now]. apply idle_or_le_wait.
-  - rewrite (state_tcp grpc_prog_deadline wait l K). cbn [now]. apply dle_refl.
-  - rewrite (state_grpc_deadline wait l K). cbn [now]. apply idle_or_le_wait.
-Qed.
-
-Theorem fixed_still_drains wait srvs s l n :
-  In s srvs -> In l (leaves s) -> In (Fin n) (litems l) -> n <= wait ->
-  fate_of grpc_prog_deadline wait l (Fin n) = Done n /\
-  survives (shutdown_fixed wait srvs) (Done n) = true.
-Proof. apply inflight_within_wait_complete_gen. right; reflexivity. Qed.
-
-Theorem fixed_listeners_closed_first wait srvs r t :
-  In r (g_servers (shutdown_fixed wait srvs)) -> server_accepts r t = false.
-Proof. apply listeners_closed_first_gen. right; reflexivity. Qed.
+(* the same input on the code as it is: back at the wait, the never-ending stream cut there *)
+Example grpc_never_ending_now_cut :
+  g_ret (shutdown 300 [Single (mkleaf KGrpc [Fin 90; Inf])]) = Fin 300 /\
+  map (fun s => map r_fates (s_leaves s)) (g_servers (shutdown 300 [Single (mkleaf KGrpc [Fin 90; Inf])]))
+  = [[[Done 90; Cut (Fin 300)]]].
+Proof. split; vm_compute; reflexivity. Qed.
 
 (* ---- further facts about the code as it is ---- *)
 (* tcp.Server.Shutdown always sits out the whole wait, even with nothing open *)
@@ -392,7 +408,7 @@ Lemma leaf_ret_closed_form wait l :
   match lkind l with
   | KHttp => dmin (dmax_list (litems l)) (Fin wait)
   | KTcp => Fin wait
-  | KGrpc => dmax_list (litems l)
+  | KGrpc => dmin (dmax_list (litems l)) (Fin wait)
   end.
 Proof.
   rewrite run_leaf_ret. destruct (lkind l) eqn:K.
@@ -439,26 +455,21 @@ Qed.
 Definition example_mix : list server :=
   [Single (mkleaf KHttp [Fin 90; Fin 600; Inf]);
    Single (mkleaf KTcp [Fin 150; Inf]);
-   Single (mkleaf KGrpc [Fin 90; Fin 150]);
-   Composite [(mkleaf KTcp [Fin 150; Inf]); (mkleaf KHttp [Fin 90; Fin 600])]].
+   Single (mkleaf KGrpc [Fin 90; Fin 150; Fin 900; Inf]);
+   Composite [mkleaf KTcp [Fin 150; Inf]; mkleaf KHttp [Fin 90; Fin 600]]].
 
-Example bounded_on_domain_nonvacuous :
-  over_wait 300 example_mix = false /\ g_ret (shutdown 300 example_mix) = Fin 300.
-Proof. split; vm_compute; reflexivity. Qed.
+Example bounded_nonvacuous : g_ret (shutdown 300 example_mix) = Fin 300.
+Proof. vm_compute; reflexivity. Qed.
 
 Example inflight_nonvacuous :
   map (fun s => map r_fates (s_leaves s)) (g_servers (shutdown 300 example_mix)) =
-  [[[Done 90; Done 600; Never]]; [[Done 150; Cut (Fin 300)]]; [[Done 90; Done 150]];
+  [[[Done 90; Done 600; Never]]; [[Done 150; Cut (Fin 300)]];
+   [[Done 90; Done 150; Cut (Fin 300); Cut (Fin 300)]];
    [[Done 150; Cut (Fin 300)]; [Done 90; Done 600]]].
 Proof. vm_compute. reflexivity. Qed.
 
-Example overrun_nonvacuous :
+Example unrepaired_overrun_nonvacuous :
   over_wait 300 [Single (mkleaf KGrpc [Fin 900])] = true /\
-  g_ret (shutdown 300 [Single (mkleaf KGrpc [Fin 900])]) = Fin 900.
-Proof. split; vm_compute; reflexivity. Qed.
-
-(* the check's region predicate is the theorems' [over_wait] *)
-Lemma over_wait_unfold wait srvs :
-  over_wait wait srvs =
-  existsb (fun s => existsb (fun l => kind_eqb (lkind l) KGrpc && existsb (fun d => dltb (Fin wait) d) (litems l)) (leaves s)) srvs.
-Proof. reflexivity. Qed.
+  g_ret (shutdown_unrepaired 300 [Single (mkleaf KGrpc [Fin 900])]) = Fin 900 /\
+  over_wait 300 example_mix = true /\ g_ret (shutdown_unrepaired 300 example_mix) = Inf.
+Proof. repeat split; vm_compute; reflexivity. Qed.
